@@ -1336,7 +1336,8 @@ class Executor:
 
     # ------------------------------------------------------------------ calls
     LIBM = {"sqrt", "sin", "cos", "tan", "atan2", "exp", "log", "pow", "fabs", "asin", "acos", "atan", "floor",
-            "ceil", "fmod", "round", "fmin", "fmax", "copysign"}
+            "ceil", "fmod", "round", "fmin", "fmax", "copysign", "remainder", "trunc", "hypot", "sinh", "cosh", "tanh", "log1p", "expm1", "cbrt",
+            "exp2", "log2", "log10", "nearbyint", "rint", "asinh", "acosh", "atanh", "fdim"}
 
     def do_call(self, ins, env):
         cal = ins.extra["callee"]
